@@ -37,6 +37,8 @@ class _Atoms:
         self.rules: dict[int, "P"] = {}      # atom a: a^2 -> P
         self.kind: dict[int, tuple] = {}      # ('cos', base) ...
         self.inexact_floats: list[float] = []
+        self.tainted: set[int] = set()      # opaque atoms whose argument depends on hbar
+        self.assumed: list[str] = []         # generic-point path assumptions taken
 
     def get(self, name, invertible=False, kind=None):
         if name not in self.index:
@@ -335,15 +337,18 @@ class P:
         if not self.t:
             return self
         if len(self.t) != 1:
-            raise Refuse("sqrt of a non-monomial")
+            return _sqrt_general(self)
         (m, c), = self.t.items()
         if c[1] != 0 or c[0] < 0:
             raise Refuse("sqrt of a non-positive coefficient")
-        res = _sqrt_fraction(c[0])
+        try:
+            res = _sqrt_fraction(Fraction(c[0]))
+        except Refuse:
+            return _sqrt_general(self)
         out = []
         for a, e in m:
             if e % 2 or a not in ATOMS.invertible:
-                raise Refuse("sqrt of an odd power / of an atom not declared positive")
+                return _sqrt_general(self)
             out.append((a, e // 2))
         return res * P({tuple(out): (_ONE, _ZERO)}) if out else res
 
@@ -519,6 +524,91 @@ def _hyp(p: P):
         for _ in range(abs(k)):
             c, s = c * ca + s * sa, s * ca + c * sa
     return c, s
+
+
+def hbar_free(p) -> bool:
+    """No occurrence of sqrt_hbar, directly or inside the argument of an opaque atom."""
+    bad = set(ATOMS.tainted)
+    if "sqrt_hbar" in ATOMS.index:
+        bad.add(ATOMS.index["sqrt_hbar"])
+    return not (coerce(p).atoms() & bad)
+
+
+def opaque(fn: str, arg, positive=False) -> "P":
+    """Uninterpreted function application fn(arg) as an atom keyed by arg's normal form.
+    Equal normal forms give the same atom (functionality); nothing else is assumed."""
+    args = arg if isinstance(arg, (list, tuple)) else [arg]
+    args = [coerce(a) for a in args]
+    key = f"{fn}[" + " ; ".join(repr(a) for a in args) + "]"
+    i = ATOMS.get(key, invertible=positive, kind=("opaque", fn))
+    if not all(hbar_free(a) for a in args):
+        ATOMS.tainted.add(i)
+    return P({((i, 1),): (_ONE, _ZERO)})
+
+
+def _sqrt_general(p: "P") -> "P":
+    """sqrt(p) for a non-monomial p (assumed positive on the code's domain): even powers of
+    positive atoms are pulled out exactly, the rest becomes the opaque atom sqrt[q]."""
+    mins = {}
+    for m in p.t:
+        d = dict(m)
+        for a in ATOMS.invertible:
+            e = d.get(a, 0)
+            mins[a] = e if a not in mins else min(mins[a], e)
+    factor = {a: (e - (e % 2)) for a, e in mins.items() if (e - (e % 2)) != 0}
+    if factor:
+        inv = P({tuple(sorted((a, -e) for a, e in factor.items())): (_ONE, _ZERO)})
+        q = p * inv
+        half = P({tuple(sorted((a, e // 2) for a, e in factor.items())): (_ONE, _ZERO)})
+    else:
+        q, half = p, P.const(1)
+    return half * opaque("sqrt", q, positive=True)
+
+
+def det(M) -> "P":
+    """Exact determinant by Laplace expansion along rows with memoised minors."""
+    A = np.asarray(M, dtype=object)
+    n = A.shape[0]
+    if A.shape != (n, n):
+        raise Refuse("det of a non-square array")
+    A = [[coerce(A[i, j]) for j in range(n)] for i in range(n)]
+    memo = {}
+
+    def minor(r, cols):
+        if r == n:
+            return P.const(1)
+        key = (r, cols)
+        if key in memo:
+            return memo[key]
+        tot = P()
+        sign = 1
+        for k, c in enumerate(cols):
+            e = A[r][c]
+            if not e.is_zero():
+                sub = minor(r + 1, cols[:k] + cols[k + 1:])
+                tot = tot + (e * sub if sign > 0 else -(e * sub))
+            sign = -sign
+        memo[key] = tot
+        return tot
+
+    return minor(0, tuple(range(n)))
+
+
+class _Linalg:
+    def __getattr__(self, name):
+        f = getattr(np.linalg, name)
+
+        def g(*a, **k):
+            if any(is_symbolic(x) for x in a):
+                raise Refuse(f"np.linalg.{name} on symbolic values")
+            return f(*a, **k)
+
+        return g
+
+    def det(self, M):
+        if is_symbolic(M):
+            return det(M)
+        return np.linalg.det(M)
 
 
 # --------------------------------------------------------------------------- arrays
@@ -705,10 +795,18 @@ class _VNP:
             raise Refuse("isclose on symbolic values")
         return np.isclose(*a, **k)
 
-    def allclose(self, *a, **k):
-        if any(is_symbolic(x) for x in a):
-            raise Refuse("allclose on symbolic values")
-        return np.allclose(*a, **k)
+    def allclose(self, a, b, **k):
+        if is_symbolic(a) or is_symbolic(b):
+            res = residual_entries(np.asarray(a, dtype=object) - np.asarray(b, dtype=object))
+            if not res:
+                return True
+            if all(e.is_const() for _, e in res):
+                return bool(np.allclose([abs(e.const_value()) for _, e in res], 0.0, **k))
+            ATOMS.assumed.append("generic point: " + repr(res[0][1])[:80] + " != 0")
+            return False
+        return np.allclose(a, b, **k)
+
+    linalg = _Linalg()
 
 
 VNP = _VNP()
